@@ -268,6 +268,11 @@ fn prop(t: &mut Tape, st: &mut Stats) -> Result<(), Failure> {
     cfg.f11_safe = true;
     cfg.decor = t.weighted(&[3, 5, 2]) as u8;
     cfg.budget = 8 + t.below(50);
+    if t.chance(1, 12) {
+        // wide documents (dozens of tables)
+        cfg.many_sections = true;
+        cfg.budget = 250 + t.below(250);
+    }
     cfg.max_depth = 6;
     let r = gen_doc(t, &cfg);
     st.eval();
